@@ -8,6 +8,7 @@ global size_of usize == 8;
 
 //@ include prelude/std_specs.rs
 //@ include units/dltcore/part.rs
+//@ include units/lcqueue/models.rs
 //@ include units/lcqueue/part.rs
 
 fn main() {}
